@@ -190,6 +190,33 @@ fn nth_back_consistency<'a, T: Obs>(mk: &dyn Fn() -> BD<'a, T>, mask: u8, out: &
 }
 
 /// forward-only observation: `steps` calls of next(); at every point hint + plain count of the rest
+/// the law of C09 checked directly (no model): 1 if at every point of a forward consumption lower = upper = items to come
+fn hint_law<'a, T>(mk: &dyn Fn() -> BI<'a, T>, steps: usize) -> u8 {
+    match guarded(AssertUnwindSafe(|| {
+        let mut main = mk();
+        for j in 0..=steps {
+            let (lo, hi) = main.size_hint();
+            let mut f = mk();
+            for _ in 0..j {
+                f.next();
+            }
+            let mut rest = 0usize;
+            while f.next().is_some() {
+                rest += 1;
+                if rest > LIMIT { break; }
+            }
+            if hi != Some(lo) || lo != rest {
+                return 0u8;
+            }
+            main.next();
+        }
+        1u8
+    })) {
+        Ok(b) => b,
+        Err(_) => 2,
+    }
+}
+
 fn observe_fwd<'a, T: Obs>(mk: &dyn Fn() -> BI<'a, T>, steps: usize, mask: u8) -> Vec<Cell> {
     finish(guarded(AssertUnwindSafe(|| {
         let mut out = vec![];
@@ -835,6 +862,16 @@ fn main() {
                         em.case("exact", &tags("varg_partition"), &format!("varg_partition(kth={}, sort={}, rev={}) on {:?}", kth, sort, rev, xs),
                             || format!("(obs_ok 2 (fw {}) (varg_partition {} {} {}))", coq_nat(steps), coq_nat(kth), coq_bool(sort), cl(&xs)),
                             || observe_fwd(&|| fwd(xs.varg_partition(kth, sort, rev)), steps, 2));
+                        // "any series": Option<f64> elements where some nulls are written Some(NaN) (is_none false, payload null) -
+                        // the model has no such value, so the law itself is the oracle: at every point of a forward consumption
+                        // lower = upper = number of items still to come (seeds C10-5 / C09-6: count_valid and not_none disagree)
+                        if nvalid < len {
+                            let xo: Vec<Option<f64>> = xs.iter().enumerate().map(|(i, x)| if x.is_nan() { if (i + kth) % 2 == 0 { Some(*x) } else { None } } else { Some(*x) }).collect();
+                            em.case("exact", &tags("vpartition_somenan"), &format!("vpartition(kth={}, sort={}, rev={}) on {:?}: lower = upper = items to come, at every point", kth, sort, rev, xo),
+                                || "(c_int 1 ++ c_int 1)".to_string(),
+                                || vec![Cell::Int(hint_law(&|| fwd(xo.vpartition(kth, sort, rev)), steps) as i128),
+                                        Cell::Int(hint_law(&|| fwd(xo.varg_partition(kth, sort, rev)), steps) as i128)]);
+                        }
                         if !rev {
                             let nsc = 2 + xr.below(2);
                             let sc = rand_script(&mut xr, false, nsc, kth + 1);
